@@ -5,6 +5,7 @@ import (
 	"go/ast"
 	"go/token"
 	"go/types"
+	"regexp"
 	"sort"
 	"strings"
 
@@ -57,6 +58,8 @@ func commutativeBody(ir *FuncIR, blk Block, why *string) bool {
 				switch {
 				case strings.HasSuffix(l, "]") && n.Tok == token.ASSIGN:
 					// map/set insertion or indexed store keyed by the element
+				case strings.Contains(l, "[*].") && n.Tok == token.ASSIGN && i < len(n.RHS) && !strings.Contains(n.RHS[i], "[*]") && !strings.HasPrefix(n.RHS[i], "L"+"x"):
+					// each iteration stores a loop-invariant value into a field of its own element
 				case n.Tok == token.INC || n.Tok == token.DEC:
 				case n.Tok == token.ADD_ASSIGN || n.Tok == token.SUB_ASSIGN || n.Tok == token.OR_ASSIGN || n.Tok == token.AND_ASSIGN || n.Tok == token.MUL_ASSIGN:
 					if i < len(n.LE) && isStringType(ir.x.typeOf(n.LE[i])) {
@@ -292,6 +295,7 @@ func checkC15(c *Check) {
 		}
 		nFuncs++
 		ir := buildFuncIR(fi, funcs, p.Fset)
+		taintedLocals := orderTaintedLocals(fi)
 		var visit func(blk Block)
 		visit = func(blk Block) {
 			for _, n := range blk {
@@ -330,10 +334,17 @@ func checkC15(c *Check) {
 					if pt, ok := t.Underlying().(*types.Pointer); ok {
 						t = pt.Elem()
 					}
+					over := n.Over
 					if _, isMap := t.Underlying().(*types.Map); !isMap {
-						continue
+						// a slice whose element order was produced in map order (declared in orderTaintedFields, or a
+						// local filtered from one in this function) is treated like a map
+						src := taintedRangeSource(fi, rs.X, taintedLocals)
+						if src == "" {
+							continue
+						}
+						over = "tainted:" + src
 					}
-					s := mapSite{Owner: owner, Over: n.Over, Pos: n.Pos}
+					s := mapSite{Owner: owner, Over: over, Pos: n.Pos}
 					why := ""
 					if mapOrderHelpers[owner] {
 						s.Class, s.Detail = "helper-source", "definition of a map-order helper: every call site must sort its result (checked at the call sites)"
@@ -357,6 +368,10 @@ func checkC15(c *Check) {
 							sort.Strings(ts)
 							if all {
 								s.Class, s.Detail = "collect-then-sort", "collected into "+strings.Join(ts, ",")+" and sorted afterwards"
+							} else if single := singletonUseOnly(ir, targets); single {
+								s.Class, s.Detail = "collect-then-sort", "collected into "+strings.Join(ts, ",")+", which is then used only through len(…) and element 0 under len(…) == 1"
+							} else if len(targets) == 1 && strings.HasPrefix(over, "tainted:") && orderTaintedFields[fieldOfTarget(ts[0])] != "" {
+								s.Class, s.Detail = "commutative", "appends into the same order-tainted field "+ts[0]+" (propagation; consumers of that field are classified separately)"
 							} else {
 								s.Class, s.Detail = "unclassified", "collected into "+strings.Join(ts, ",")+" but no sort of it follows in this function"
 							}
@@ -528,4 +543,109 @@ func determinismSources(c *Check, p *Program, reach map[*ssa.Function]bool) {
 		})
 		c.Ob("input-order/files-added-in-walk-order", "pure.Kernel.AddFilesFromPaths", okAll && n >= 2, r.pos(ir.Info.Decl.Pos()), fmt.Sprintf("%d AddFile* calls, all inside loops over WalkDeterministic results", n))
 	}
+}
+
+// orderTaintedFields: slice fields whose element order is produced in map-iteration order by a listed site;
+// the listing is sound only while every consumer is order-insensitive, so ranges over them are classified like
+// ranges over maps.
+var orderTaintedFields = map[string]string{
+	"InternalNamespace.Types": "merged recursion-cycle namespaces receive their types in the order the DFS of FindRecursiveImports (map iteration) picked merge partners",
+}
+
+// taintedRangeSource: the range expression is a tainted field or a local derived from one.
+func taintedRangeSource(fi *FuncInfo, e ast.Expr, locals map[string]string) string {
+	switch x := ast.Unparen(e).(type) {
+	case *ast.SelectorExpr:
+		if k := fieldKey(fi.Pkg.TypesInfo, x); orderTaintedFields[k] != "" {
+			return k
+		}
+	case *ast.Ident:
+		if src, ok := locals[x.Name]; ok {
+			return src + " via " + x.Name
+		}
+	}
+	return ""
+}
+
+// orderTaintedLocals: locals appended to inside a range over a tainted field (order-preserving filters) and
+// locals assigned a tainted field directly.
+func orderTaintedLocals(fi *FuncInfo) map[string]string {
+	out := map[string]string{}
+	if fi.Decl.Body == nil {
+		return out
+	}
+	info := fi.Pkg.TypesInfo
+	ast.Inspect(fi.Decl.Body, func(n ast.Node) bool {
+		switch n := n.(type) {
+		case *ast.RangeStmt:
+			src := ""
+			if sel, ok := ast.Unparen(n.X).(*ast.SelectorExpr); ok {
+				if k := fieldKey(info, sel); orderTaintedFields[k] != "" {
+					src = k
+				}
+			}
+			if src == "" {
+				return true
+			}
+			ast.Inspect(n.Body, func(m ast.Node) bool {
+				if as, ok := m.(*ast.AssignStmt); ok && len(as.Lhs) == 1 && len(as.Rhs) == 1 {
+					if call, ok := as.Rhs[0].(*ast.CallExpr); ok {
+						if id, ok := call.Fun.(*ast.Ident); ok && id.Name == "append" {
+							if l, ok := as.Lhs[0].(*ast.Ident); ok {
+								out[l.Name] = src
+							}
+						}
+					}
+				}
+				return true
+			})
+		case *ast.AssignStmt:
+			for i, r := range n.Rhs {
+				if sel, ok := ast.Unparen(r).(*ast.SelectorExpr); ok && i < len(n.Lhs) {
+					if k := fieldKey(info, sel); orderTaintedFields[k] != "" {
+						if l, ok := n.Lhs[i].(*ast.Ident); ok {
+							out[l.Name] = k
+						}
+					}
+				}
+			}
+		}
+		return true
+	})
+	return out
+}
+
+// singletonUseOnly: every use of each collected local, other than the collecting append itself, is len(L) or
+// L[0], and some len(L) == 1 test exists.
+func singletonUseOnly(ir *FuncIR, targets map[string]bool) bool {
+	txt := blockText(ir.Body)
+	for t := range targets {
+		if !strings.HasPrefix(t, "L") {
+			return false
+		}
+		q := regexp.QuoteMeta(t)
+		rest := regexp.MustCompile(`call append recv=\(`+q+`, [^)]*\) -> \[`+q+`\]`).ReplaceAllString(txt, "")
+		rest = regexp.MustCompile(`decl `+q+`\n`).ReplaceAllString(rest, "")
+		rest = regexp.MustCompile(`len\(`+q+`\)`).ReplaceAllString(rest, "")
+		rest = regexp.MustCompile(q+`\[#0\]`).ReplaceAllString(rest, "")
+		if strings.Contains(rest, t) {
+			return false
+		}
+		if !regexp.MustCompile(`!\(len\(` + q + `\) != #1\)`).MatchString(txt) {
+			return false
+		}
+	}
+	return len(targets) > 0
+}
+
+func fieldOfTarget(t string) string {
+	if i := strings.LastIndex(t, "."); i >= 0 {
+		name := t[i+1:]
+		for k := range orderTaintedFields {
+			if strings.HasSuffix(k, "."+name) {
+				return k
+			}
+		}
+	}
+	return ""
 }
